@@ -441,13 +441,13 @@ def nt_re_omitted(case):
 
 
 SUBCHECKS = [
-    SubCheck("pt_index", check_pt_index, _pt_case, nt_pt, quick=24000, thorough=400000),
+    SubCheck("pt_index", check_pt_index, _pt_case, nt_pt, quick=24000, thorough=400000, fuzz=20000),
     # larger systems (up to 9 / 7 subsystems, totals up to 512): the property is not bounded in size
     SubCheck("pt_index_large", check_pt_index, lambda: _pt_case(nmax_sq=12, nmax_rect=8, budget=256, shuffle=True), nt_pt, quick=900, thorough=18000),
     SubCheck("pt_laws", check_pt_laws, _pt_law_case, nt_pt_laws, quick=6000, thorough=100000),
     SubCheck("pt_product", check_pt_product, _pt_prod_case, nt_pt_prod, quick=6000, thorough=100000),
     SubCheck("pt_cvxpy", check_pt_cvxpy, _pt_cvx_case, nt_pt_cvx, quick=4000, thorough=70000),
-    SubCheck("realign_index", check_re_index, _re_case, nt_re, quick=8000, thorough=140000),
+    SubCheck("realign_index", check_re_index, _re_case, nt_re, quick=8000, thorough=140000, fuzz=10000),
     SubCheck("realign_product", check_re_product, _re_prod_case, nt_re, quick=5000, thorough=90000),
     SubCheck("realign_omitted_enum", check_re_omitted, None, nt_re_omitted, cases=_re_omitted_cases, exhaustive=True),
 ]
